@@ -265,6 +265,7 @@ class SimReactor(object):
         self.livelock = False
         self.running = True
         self.probe = None         # optional callable -> the protocol object the agent's FSM tracks
+        self.defer_io = False     # True: connectionLost after loseConnection waits for an explicit deliver_io()
 
     def install(self):
         _proxy._install(self)
@@ -372,14 +373,28 @@ class SimReactor(object):
 
     def drain_soon(self):
         n = 0
-        while self._soon:
-            kind, f, args, kw = self._soon.pop(0)
+        i = 0
+        while i < len(self._soon):
+            if self.defer_io and self._soon[i][0] == 'io':
+                i += 1
+                continue
+            kind, f, args, kw = self._soon.pop(i)
             self._guard(kind + ':' + getattr(f, '__name__', '?'), f, *args, **kw)
             n += 1
             if n > self.MAX_SETTLE:
                 self.livelock = True
                 break
         return n
+
+    def pending_io(self):
+        return [e for e in self._soon if e[0] == 'io']
+
+    def deliver_io(self, index=0):
+        """complete one deferred I/O event (the connectionLost that follows loseConnection)"""
+        self._current()
+        ios = [i for i, e in enumerate(self._soon) if e[0] == 'io']
+        kind, f, args, kw = self._soon.pop(ios[index])
+        self._guard(kind + ':' + getattr(f, '__name__', '?'), f, *args, **kw)
 
     def settle(self, fire_due=True, order=None):
         self._current()
